@@ -2291,7 +2291,15 @@ func (interp *Interpreter) cfg(root *node, sc *scope, importPath, pkgName string
 				init.tnext = sbn.start
 				n.child[0].tnext = init.start
 			} else {
-				n.child[0].tnext = sbn.start
+				// The init statement, then the tag expression, then the clauses.
+				pre := n.child[:len(n.child)-1]
+				for k, c := range pre {
+					if k == len(pre)-1 {
+						c.tnext = sbn.start
+					} else {
+						c.tnext = pre[k+1].start
+					}
+				}
 			}
 
 		case switchIfStmt: // like an if-else chain
